@@ -48,6 +48,13 @@ Proof.
   apply (SInv_add_all (mkS empty_nxg 1)); [apply SInv_empty | exact H].
 Qed.
 
+Lemma d_clone_cases d g g2 :
+  (gn (dget d g) = [] /\ d_clone d g g2 = (d, Err EQuery)) \/
+  (gn (dget d g) <> [] /\ d_clone d g g2 = d_add_graph d g2 (d_extract d g)).
+Proof.
+  unfold d_clone, d_extract. destruct (gn (dget d g)) eqn:E; [left; now split | right; split; [discriminate | reflexivity]].
+Qed.
+
 Lemma DInv_add_graph d g ig : DInv d -> DInv (fst (d_add_graph d g ig)).
 Proof.
   intro H. unfold d_add_graph. destruct (gn (dget d g)); [|exact H].
@@ -76,7 +83,7 @@ Proof.
   - now apply DInv_add_graph.
   - now apply DInv_add_graph_direct.
   - now apply DInv_del_graph.
-  - unfold d_clone. now apply DInv_add_graph.
+  - destruct (d_clone_cases d g g2) as [[_ E]|[_ E]]; rewrite E; [exact H | now apply DInv_add_graph].
   - destruct (pg_add_node (dget d g) g (dcounter d g) n c ps) eqn:E; simpl; [|exact H].
     apply DInv_put_ctr; [exact H|].
     apply (SInv_add_node (mkS (dget d g) (dcounter d g)) g n c ps); [apply H | exact E].
@@ -130,7 +137,7 @@ Proof.
   - now apply frame_d_add_graph.
   - unfold d_add_graph_direct. cbn [fst]. rewrite dget_dput_ctr. now apply dget_put_other.
   - unfold d_del_graph. destruct (gn (dget d g)); [reflexivity | now apply dget_put_other].
-  - unfold d_clone. now apply frame_d_add_graph.
+  - destruct (d_clone_cases d g g2) as [[_ E]|[_ E]]; rewrite E; [reflexivity | now apply frame_d_add_graph].
   - destruct (pg_add_node (dget d g) g (dcounter d g) n c ps); simpl; [|reflexivity].
     rewrite dget_dput_ctr. now apply dget_put_other.
 Qed.
